@@ -60,6 +60,18 @@ func Target2(n int) Iter[string] {
 }
 `
 
+// lits15: many generator function literals with comments in one file: the "original source"
+// comments the compiler attaches are free-floating and must stay in source order
+func lits15() string {
+	var sb strings.Builder
+	sb.WriteString("package src\n\nimport . \"github.com/goghcrow/go-co\"\n\nfunc Lits() []func() Iter[int] {\n\tvar fs []func() Iter[int]\n")
+	for i := 0; i < 10; i++ {
+		fmt.Fprintf(&sb, "\t// literal %d\n\tfs = append(fs, func() Iter[int] {\n\t\tfor _, x := range []int{%d} {\n\t\t\tYield(x) // yields %d\n\t\t}\n\t\treturn nil\n\t})\n", i, i, i)
+	}
+	sb.WriteString("\treturn fs\n}\n")
+	return sb.String()
+}
+
 var companions15 = map[string][2]string{
 	"before": {"a_before.go", "package src\n\nimport . \"github.com/goghcrow/go-co\"\n\nfunc Before() Iter[int] {\n\tfor _, x := range []int{1} {\n\t\tYield(x)\n\t}\n\treturn nil\n}\n"},
 	"after":  {"z_after.go", "package src\n\nimport . \"github.com/goghcrow/go-co\"\n\nfunc After() Iter[int] {\n\tfor _, x := range []int{1} {\n\t\tfor _, y := range []int{2} {\n\t\t\tYield(x + y)\n\t\t}\n\t}\n\treturn nil\n}\n"},
@@ -105,7 +117,8 @@ func run15(c cfg15, drv string) res15 {
 	src, dst := filepath.Join(tmp, "src"), filepath.Join(tmp, "dst")
 	os.MkdirAll(src, 0o755)
 	os.WriteFile(filepath.Join(src, "target.go"), []byte(target15), 0o644)
-	expect := map[string]bool{"target.go": true}
+	os.WriteFile(filepath.Join(src, "lits.go"), []byte(lits15()), 0o644)
+	expect := map[string]bool{"target.go": true, "lits.go": true}
 	env := goEnv
 	for _, n := range c.comps {
 		f := companions15[n]
@@ -147,7 +160,8 @@ func run15(c cfg15, drv string) res15 {
 		r.failure = "target file not generated"
 		return r
 	}
-	r.target = string(tb)
+	lb, _ := os.ReadFile(filepath.Join(dst, "lits.go"))
+	r.target = string(tb) + "\n// ==== lits.go\n" + string(lb)
 	filepath.Walk(dst, func(p string, info os.FileInfo, err error) error {
 		if err == nil && !info.IsDir() {
 			rel, _ := filepath.Rel(dst, p)
@@ -164,7 +178,8 @@ func run15(c cfg15, drv string) res15 {
 		return r
 	}
 	tb2, _ := os.ReadFile(filepath.Join(dst, "target.go"))
-	r.second = string(tb2)
+	lb2, _ := os.ReadFile(filepath.Join(dst, "lits.go"))
+	r.second = string(tb2) + "\n// ==== lits.go\n" + string(lb2)
 	return r
 }
 
@@ -239,8 +254,10 @@ func C15(tier string) *core.Report {
 		}
 		// helper identifiers pairwise distinct within the file
 		seen := map[string]int{}
-		for _, m := range iterTmpRe.FindAllStringSubmatch(rs.target, -1) {
-			seen[m[1]]++
+		for fi, part := range strings.Split(rs.target, "\n// ==== lits.go\n") {
+			for _, m := range iterTmpRe.FindAllStringSubmatch(part, -1) {
+				seen[fmt.Sprint(fi, ":", m[1])]++
+			}
 		}
 		for name, n := range seen {
 			if n > 1 {
